@@ -15,7 +15,7 @@ MECH = {
     "C01": ["mechanisms/Links", "mechanisms/ArenaImpl"], "C02": ["mechanisms/Links", "mechanisms/Walk", "mechanisms/ArenaImpl"],
     "C03": ["mechanisms/Links", "mechanisms/ArenaImpl"], "C04": ["mechanisms/Links", "mechanisms/ArenaImpl"],
     "C05": ["mechanisms/Links", "mechanisms/ArenaImpl"], "C12": ["mechanisms/Links", "mechanisms/ArenaImpl"],
-    "C06": ["mechanisms/Stamp", "mechanisms/Stamp_real", "mechanisms/ArenaImpl"], "C07": ["mechanisms/FreeList", "mechanisms/Stamp", "mechanisms/ArenaImpl"],
+    "C06": ["mechanisms/Stamp", "mechanisms/Stamp_real", "mechanisms/ArenaImpl"], "C07": ["mechanisms/FreeList", "mechanisms/Stamp", "mechanisms/ArenaImpl", "mechanisms/CloneFrom"],
     "C08": ["mechanisms/FreeList", "mechanisms/ArenaImpl"], "C09": ["mechanisms/Walk"], "C10": ["mechanisms/DEIter"],
     "C14": ["mechanisms/IndentWriter"], "C13": ["mechanisms/CloneFrom"],
 }
@@ -93,7 +93,7 @@ def check_property(prop, tier):
     v = Verdict(prop, tier, LEVEL[prop])
     v.assumptions = [
         "TLC, the CommunityModules Json/IOUtils, serde_json, catch_unwind and the harness projection (public accessor calls only) are trusted",
-        "exhaustive only up to the slot bound of the bundle configuration; beyond it coverage is by seeded random histories",
+        "exhaustive only up to the slot bound of the bundle configuration; beyond it coverage is by seeded random histories and by size probes of the implementation (chain of 300 000 levels, lists of 700 siblings, generation-counter runs), which check only what the size determines",
         "node arguments are the newest id of a slot; stale ids of recycled slots, ids of other arenas and detach/remove of removed ids are outside 'valid calls' and never generated",
     ]
     # histories breadth-first up to 4/5 slots + every ordered forest up to 7/8 nodes built by its canonical path
